@@ -1,7 +1,7 @@
 // C18 — Imports resolve, terminate, and mean the same as inlining the files.
 //
 // Bounded-exhaustive model check on the real generator: every directed graph (self-loops allowed)
-// over n <= 3 files (n = 4 too; every go_package assignment in the thorough tier, two in quick)
+// over n <= 3 files (quick: plus the 4,096 self-import-free graphs over 4 files; thorough: all 65,536)
 // x go_package assignment x import mode x directory placement / import spelling is materialised on
 // disk and generated with the code under test; an independent reference (own reachability, own
 // cycle DFS, own inliner) says what must come out. See NOTES.md.
@@ -14,7 +14,6 @@ import (
 	"os"
 	"path/filepath"
 	"runtime"
-	"runtime/pprof"
 	"sort"
 	"strings"
 	"sync"
@@ -25,7 +24,6 @@ import (
 )
 
 var workBase string
-var stopProfile = func() {}
 
 func cleanup() {
 	if workBase != "" {
@@ -97,9 +95,38 @@ type explorer struct {
 }
 
 type worker struct {
-	x  *explorer
-	sc *scratch
+	x       *explorer
+	sc      *scratch
+	lastDur map[string]time.Duration // Generate time per mode of the last base-placement run
 }
+
+// oddness orders witnesses: separate mode prefers "every file has its own go_package", combined
+// mode prefers "no go_package anywhere".
+func oddness(s *spec, e *expectation, mode string) int {
+	if mode == modeCombined {
+		return e.PkgFiles
+	}
+	seen := map[string]bool{}
+	odd := 0
+	for _, p := range s.Pkgs {
+		if p == "" || seen[p] {
+			odd++
+		}
+		seen[p] = true
+	}
+	return odd
+}
+
+// edgeCode is a deterministic tie-breaker between graphs of the same size.
+func edgeCode(s *spec) int {
+	v := 0
+	for _, e := range s.edges() {
+		v = (v*31 + e[0]*s.N + e[1] + 1) % 1000003
+	}
+	return v
+}
+
+var shapeRank = map[string]int{"tree": 0, "diamond": 1, "cycle": 2, "root-reimported": 3, "self-import": 4, "root-self-import": 5, "no-imports": 6}
 
 func placementIndex(p placement) int {
 	for i, q := range allPlacements {
@@ -191,6 +218,10 @@ func (w *worker) explore(s *spec, places []placement, onlyMode string, assignIdx
 					flatSigs[mode][f.Sig] = true
 				}
 				flatRes[mode] = r
+				if w.lastDur == nil {
+					w.lastDur = map[string]time.Duration{}
+				}
+				w.lastDur[mode] = r.Dur
 				x.triples.Add(canon(s, e) + "|" + mode + "|" + r.class())
 				x.classes.Add(mode + "/" + r.class())
 			} else {
@@ -232,7 +263,7 @@ func (w *worker) explore(s *spec, places []placement, onlyMode string, assignIdx
 				f := f
 				f.Place, f.Mode, f.Observed, f.ObservedErr = p.name(), mode, r.class(), r.errText()
 				all = append(all, f)
-				rank := []int{len(e.Reach), len(s.edges()), s.N, e.PkgFiles, assignIdx, placementIndex(p), mi}
+				rank := []int{shapeRank[e.Shape], len(e.Reach), len(s.edges()), s.N, oddness(s, e, mode), edgeCode(s), assignIdx, placementIndex(p), mi}
 				x.col.add(f.Sig, f.Msg, rank, func() map[string]any {
 					c := map[string]any{
 						"kind": "graph", "n": s.N, "edges": s.edgeString(), "edge_pairs": s.edges(), "go_packages": s.Pkgs,
@@ -298,12 +329,6 @@ func main() {
 	if err := os.MkdirAll(workBase, 0o755); err != nil {
 		vlib.Fatal("cannot create %s: %v", workBase, err)
 	}
-	if pf := os.Getenv("C18_CPUPROFILE"); pf != "" {
-		f, _ := os.Create(pf)
-		_ = pprof.StartCPUProfile(f)
-		defer pprof.StopCPUProfile()
-		stopProfile = pprof.StopCPUProfile
-	}
 	run := vlib.NewRun(*prop, "model_checking")
 	x := &explorer{run: run, col: &collector{m: map[string]*entry{}}, triples: vlib.NewCounter(), classes: vlib.NewCounter(),
 		shapes: vlib.NewCounter(), sampled: map[string]bool{}}
@@ -314,19 +339,36 @@ func main() {
 	}
 
 	// ---- phase 1: all directed graphs ----
+	t0 := time.Now()
 	// a job is a block of consecutive masks (only f0's imports change between neighbours, so most
 	// files on disk stay as they are)
 	type job struct {
 		n      int
 		lo, hi uint64
 	}
+	// quick tier, 4 files: only the 4,096 graphs without self-imports (all 65,536 in thorough)
+	skip := func(n int, mask uint64) bool {
+		if n != 4 || run.Thorough() {
+			return false
+		}
+		for i := 0; i < n; i++ {
+			if mask&(1<<uint(i*n+i)) != 0 {
+				return true
+			}
+		}
+		return false
+	}
 	var jobs []job
 	graphsPerN := map[string]int{}
 	totalGraphs := 0
 	for n := 1; n <= 4; n++ {
 		cnt := uint64(1) << uint(n*n)
-		graphsPerN[fmt.Sprint(n)] = int(cnt)
-		totalGraphs += int(cnt)
+		for m := uint64(0); m < cnt; m++ {
+			if !skip(n, m) {
+				graphsPerN[fmt.Sprint(n)]++
+				totalGraphs++
+			}
+		}
 		block := uint64(1) << uint(n) // all choices of f0's imports
 		if n == 3 {
 			block = 16
@@ -339,31 +381,42 @@ func main() {
 		}
 	}
 	assign := map[int][][]string{1: pkgAssignments(1), 2: pkgAssignments(2), 3: pkgAssignments(3)}
-	places4 := allPlacements
+	// 4 files: quick = distinct go_packages in one directory; thorough = the 8
+	// representative assignments of pkgAssignments4 in one directory, two of them also in the
+	// nested / decoy (and mixed-spelling) placements.
+	places4full := []placement{{"flat", "plain"}, {"flat", "mixed"}, {"deep", "plain"}, {"decoy", "plain"}}
+	places4 := map[int][]placement{}
 	if run.Thorough() {
-		assign[4] = pkgAssignments(4)
+		assign[4] = pkgAssignments4()
+		for ai := range assign[4] {
+			places4[ai] = allPlacements[:1]
+		}
+		places4[0] = places4full                                                           // all distinct
+		places4[4] = []placement{{"flat", "plain"}, {"deep", "plain"}, {"decoy", "plain"}} // two imported files share a package
 	} else {
-		a4 := pkgAssignments4()
-		assign[4] = [][]string{a4[0], a4[4]}
-		places4 = []placement{{"flat", "plain"}, {"flat", "mixed"}, {"deep", "plain"}, {"decoy", "plain"}}
+		assign[4] = pkgAssignments4()[:1]
+		places4[0] = allPlacements[:1]
 	}
 	samples := map[string]string{ // n:mask:assignment index -> label
-		fmt.Sprintf("3:%d", 1<<1|1<<2|1<<5):       "diamond over 3 files: f0 imports f1 and f2, f1 imports f2",
+		fmt.Sprintf("3:%d", 1<<1|1<<2|1<<5):         "diamond over 3 files: f0 imports f1 and f2, f1 imports f2",
 		fmt.Sprintf("3:%d", 1<<1|1<<(3+2)|1<<(6+1)): "cycle below the root: f0 -> f1 -> f2 -> f1",
-		fmt.Sprintf("2:%d", 1<<1|1<<2):             "root re-imported: f0 -> f1 -> f0",
+		fmt.Sprintf("2:%d", 1<<1|1<<2):              "root re-imported: f0 -> f1 -> f0",
 	}
 	var graphsDone atomic.Int64
 	parallel(len(jobs), func(w *worker, i int) {
 		j := jobs[i]
-		places := allPlacements
-		if j.n == 4 {
-			places = places4
-		}
 		for ai, pk := range assign[j.n] {
+			places := allPlacements
+			if j.n == 4 {
+				places = places4[ai]
+			}
 			if run.TimeUp("graph enumeration") {
 				return
 			}
 			for mask := j.lo; mask < j.hi; mask++ {
+				if skip(j.n, mask) {
+					continue
+				}
 				s := specFromMask(j.n, mask).withPkgs(pk)
 				label := ""
 				if l, ok := samples[fmt.Sprintf("%d:%d", j.n, mask)]; ok && allSet(pk) && allDistinct(pk) {
@@ -372,18 +425,25 @@ func main() {
 				w.explore(s, places, "", ai, nil, label)
 			}
 		}
-		graphsDone.Add(int64(j.hi - j.lo))
+		for mask := j.lo; mask < j.hi; mask++ {
+			if !skip(j.n, mask) {
+				graphsDone.Add(1)
+			}
+		}
 	}, x)
 	if int(graphsDone.Load()) != totalGraphs {
 		run.Cap(fmt.Sprintf("graph enumeration stopped after %d of %d graphs", graphsDone.Load(), totalGraphs))
 	}
 	enumStates := x.states.Load()
+	tEnum := time.Since(t0).Seconds()
 
 	// ---- phase 2: termination families (layered diamonds, chains, complete DAGs) ----
 	famMs := terminationFamilies(x, run)
+	tFam := time.Since(t0).Seconds() - tEnum
 
 	// ---- phase 3: relative root FileName, cwd changed in a subprocess ----
 	relRuns := relativeRootCheck(x)
+	tRel := time.Since(t0).Seconds() - tEnum - tFam
 
 	// ---- report ----
 	sigs := make([]string, 0, len(x.col.m))
@@ -414,17 +474,21 @@ func main() {
 		pn = append(pn, p.name())
 	}
 	run.Coverage["placements"] = pn
-	p4 := []string{}
-	for _, p := range places4 {
-		p4 = append(p4, p.name())
+	p4 := map[string][]string{}
+	for ai, pl := range places4 {
+		for _, p := range pl {
+			p4[strings.Join(assign[4][ai], ",")] = append(p4[strings.Join(assign[4][ai], ",")], p.name())
+		}
 	}
-	run.Coverage["placements_n4"] = p4
+	run.Coverage["placements_n4_by_go_package_assignment"] = p4
 	run.Coverage["outcome_classes"] = x.classes.Top(20)
 	run.Coverage["shape_classes"] = x.shapes.Top(20)
 	run.Coverage["max_generate_ms"] = float64(maxGenerateNs.Load()) / 1e6
 	run.Coverage["generate_calls_over_5s"] = slowCalls.Load()
 	run.Coverage["termination_families_ms"] = famMs
 	run.Coverage["relative_root_subprocess_runs"] = relRuns
+	run.Coverage["phase_wall_s"] = map[string]float64{"graph_enumeration": tEnum, "termination_families": tFam, "relative_root": tRel}
+	run.Coverage["workers"] = runtime.NumCPU()
 	run.Assume = append(run.Assume,
 		"type names are unique across files (E<i>, S<i>, M<i>); every message references one struct of each directly imported file; PackageName is always given, so a root without go_package is legal in both modes",
 		"separate mode: expected = error (any) if an imported file (the root counts when it is re-imported) has no go_package; else an error containing 'cycle' iff the go_package graph reachable from the root has a cycle (self-edges count: a file importing itself or a file of its own package); else no error. Nothing is asserted about the text of a separate-mode result except that it does not depend on placement/spelling",
@@ -433,7 +497,6 @@ func main() {
 		"the decoy oracle looks for the substring 'ecoy' (only decoy files contain it) in the output or error; apart from that and the word 'cycle' no error wording is asserted",
 		"symlinks, absolute import paths, import paths with backslashes, an empty File.FileName and colliding path.Base(go_package) namespaces are outside the alphabet",
 	)
-	stopProfile()
 	cleanup()
 	run.Finish()
 }
@@ -529,10 +592,11 @@ func terminationFamilies(x *explorer, run *vlib.Run) map[string]float64 {
 		f := fams[i]
 		for ai, pk := range [][]string{distinctPkgs(f.s.N), make([]string, f.s.N)} {
 			s := f.s.withPkgs(pk)
-			before := time.Now()
 			w.explore(s, allPlacements[:1], "", ai, nil, "")
 			mu.Lock()
-			ms[f.name+map[int]string{0: "/distinct-go_packages", 1: "/no-go_package"}[ai]] = float64(time.Since(before).Microseconds()) / 1000
+			for _, mode := range modes {
+				ms[f.name+map[int]string{0: "/distinct-go_packages/", 1: "/no-go_package/"}[ai]+mode] = float64(w.lastDur[mode].Microseconds()) / 1000
+			}
 			mu.Unlock()
 		}
 	}, x)
